@@ -65,6 +65,9 @@ def families(tier, seed):
                     name=f'real manager sweep [{be or "default"}] {fname} {extra} {sh.name}',
                     run=harness.sweep(cf.FUNCTIONS[fname], sh, dict(moore=True, plus_one=True, **extra), 'automaton', seed, ns, be),
                     label='bounded'))
+    from contracts import context_ops as _co
+    for be in ('cudd', 'autoref'):
+        out.append(dict(name=f'renaming, priming and enumeration on variables of 11 and 12 bits [{be}]', run=_co.wide_enumeration(be), label='bounded'))
     from contracts import optdiff as _od
     out.append(dict(name='same results with assert statements stripped (python -O), section C01', run=_od.family('C01'), label='bounded'))
     return out
